@@ -999,7 +999,8 @@ class Facts:
         import normalize
         if not new:
             raw = dict(raw)
-            raw['bodies'] = [self._norm_body(b, normalize) for b in raw['bodies']]
+            raws = {b['path']: b for b in raw['bodies']}
+            raw['bodies'] = [self._norm_body(b, normalize, raws) for b in raw['bodies']]
             return raw
         raws = {b['path']: b for b in raw['bodies']}
         newset = set(new)
@@ -1024,15 +1025,16 @@ class Facts:
                 b['root'] = host['root'] if host and host['kind'] == 'Closure' else used[b['root']]
             keep.append(b)
         raw = dict(raw)
-        raw['bodies'] = [self._norm_body(b, normalize) for b in keep]
+        kraws = {b['path']: b for b in keep}
+        raw['bodies'] = [self._norm_body(b, normalize, kraws) for b in keep]
         self.inlined = sorted(used.items())
         return raw
 
     @staticmethod
-    def _norm_body(b, normalize):
+    def _norm_body(b, normalize, raws):
         if b['kind'] in ('Fn', 'AssocFn', 'Closure') and b['promoted'] is None and not os.environ.get('AM_NO_NORMALIZE'):
-            b = copy.deepcopy(b) if 'inlined' not in b else b
-            normalize.normalize(b)
+            b = copy.deepcopy(b)
+            normalize.normalize(b, raws)
         return b
 
     def view(self, path, inline_also=()):
